@@ -77,15 +77,34 @@ def _sym_engine(f):
             return (a, ("__some", b))
         return ("plain", v)
 
+    def symbolic(v):
+        if isinstance(v, Sym) or (isinstance(v, Var) and v.d.startswith("nf:")):
+            return True
+        if isinstance(v, Var):
+            return any(symbolic(x) for x in v.fields)
+        if isinstance(v, (list, tuple)):
+            return any(symbolic(x) for x in v)
+        return False
+
+    def mixed(l_, r_):
+        # a symbolic payload (or a rendering of one) compared with a constant: equal for *some* payload, for all we know -
+        # the atoms are only ever equal to themselves, so this comparison cannot be decided here
+        for x_, y_ in ((l_, r_), (r_, l_)):
+            if symbolic(x_) and isinstance(y_, (str, int, float)) and not isinstance(y_, bool):
+                raise Unsupported("a symbolic payload is compared with the constant %r" % (y_,))
+
     def unknown(it_, e, env, depth):
         callee = H.callee(e) or ""
         decl = e.get("callee") or ""
         name = e.get("name") or decl.rsplit("::", 1)[-1]
         vals = ([it_.ev(e["recv"], env, depth)] if e.get("k") == "mcall" else []) + [it_.ev(a, env, depth) for a in e.get("args") or []]
+
         if (decl == "core::cmp::PartialEq::eq" or callee.endswith("PartialEq>::eq")) and len(vals) == 2:
+            mixed(vals[0], vals[1])
             rec["cmp"].append((nf(vals[0]), nf(vals[1])))
             return vals[0] == vals[1]
         if (decl == "core::cmp::PartialEq::ne" or callee.endswith("PartialEq>::ne")) and len(vals) == 2:
+            mixed(vals[0], vals[1])
             rec["cmp"].append((nf(vals[0]), nf(vals[1])))
             return vals[0] != vals[1]
         if decl == "core::hash::Hash::hash" and len(vals) == 2:
@@ -107,6 +126,7 @@ def _sym_engine(f):
     def on_cmp(l, r):
         if isinstance(l, (int, bool)) and isinstance(r, (int, bool)):
             return          # lengths and flags, not payload
+        mixed(l, r)
         rec["cmp"].append((nf(l), nf(r)))
     it.cmp_hook = on_cmp
     return it, rec
@@ -170,6 +190,12 @@ def check_symbolic(run, f, cfg, variants, eqn, hn):
                         if d1 == d2 and lab1 == lab2 == "a":
                             eqcmp[d1] = rec["cmp"]
     except (Unsupported, Diverged) as e:
+        if "a symbolic payload is compared with the constant" in str(e):
+            # not a gap of the interpreter: equality really depends on whether some payload (or its rendering) coincides with a
+            # constant - e.g. an absent value standing in as "null" next to the rendering of a present one
+            run.ob("C18.R1", "eq:payload-vs-constant", False,
+                   "Value::eq / Value::hash: %s - for a payload that coincides with it, a present value and the stand-in for the absent one "
+                   "(or two different values) compare equal; equality must be decided on the Option structure first" % e, sp=f.fns[eqn]["sp"] if eqn in f.fns else None, cfg=cfg)
         run.notes.append("C18 eq/hash outside the interpreter's fragment (%s): decided by the shape rules" % e)
         return False
     nrows = len(eqres)
